@@ -83,6 +83,9 @@ impl FieldAttributeBuilder {
                             output = Some(self.build_from_deref_meta(&meta)?);
                         }
                     }
+                } else {
+                    // `#[educe]` and `#[educe = ".."]` carry nothing a handler reads: refused here as on the type itself
+                    return Err(panic::educe_format_incorrect(path.get_ident().unwrap()));
                 }
             }
         }
